@@ -24,6 +24,11 @@ Proof.
     cbn [bind D.v_targets_set D.v_n_args_override]; try reflexivity.
 Qed.
 
+(* the base of relative jumps handed to to_arg is the offset AFTER the instruction (prefixes included), as in the model's
+   decode_instrs (Model/Blocks.v: to_arg c opcode a next_offset ...) *)
+Lemma jump_base_tie : forall n_args offset next_offset, D.jump_base n_args offset next_offset = next_offset.
+Proof. intros. reflexivity. Qed.
+
 (* decode_instrs uses exactly that override *)
 Lemma decode_instrs_nov : forall {C} (keq : C -> C -> bool) c opcode a n_args offset next_offset r freevars lm st parg st1,
   to_arg keq c opcode a next_offset freevars st = OK (parg, st1) ->
